@@ -88,9 +88,6 @@ theorem push_append (sem : Sem H C) (tc : Tab H × C) (a b : Bytes) (base : Nat)
   rw [frame_append a b base ha, frame_eq_pure a, frame_eq_pure b]
   simp only [R.ok_bind, R.pure_eq]
   rw [pushModel_append]
-  cases pushModel sem tc (framePure (chunks a) base) with
-  | panic s => rfl
-  | ok tc' => simp only [R.ok_bind, frame_eq_pure]
 
 theorem push_nil (sem : Sem H C) (tc : Tab H × C) (base : Nat) : push sem tc [] base = .ok tc := rfl
 
@@ -117,7 +114,7 @@ theorem chunking_irrelevant_dropLast (sem : Sem H C) :
       have hrest : ∀ c ∈ (b2 :: bs').dropLast, c.length % 188 = 0 := by
         intro c hc
         apply h c
-        rw [List.dropLast_cons₂]
+        rw [List.dropLast_cons_cons]
         exact List.mem_cons_of_mem _ hc
       rw [push_append sem tc b _ base hb]
       cases push sem tc b base with
@@ -132,7 +129,7 @@ theorem chunking_irrelevant (sem : Sem H C) (tc : Tab H × C) (chunks : List Byt
     (h : ∀ c ∈ chunks, c.length % 188 = 0) :
     pushAll sem tc chunks base = push sem tc chunks.flatten base :=
   chunking_irrelevant_dropLast sem chunks tc base
-    (fun c hc => h c (List.mem_of_mem_dropLast hc))
+    (fun c hc => h c (List.dropLast_subset chunks hc))
 
 /-- only the last buffer may be unaligned -/
 theorem chunking_irrelevant_unaligned_last (sem : Sem H C) (tc : Tab H × C)
@@ -158,17 +155,19 @@ private def pkt5 : Bytes := [0x47, 0x00, 0x05, 0x10] ++ List.replicate 184 0
 /-- a 188-byte packet on PID 1 (whose `exSem` handler queues changes) -/
 private def pkt1 : Bytes := [0x47, 0x00, 0x01, 0x10] ++ List.replicate 184 0
 
-example : pkt5.length = 188 := by decide
+example : pkt5.length = 188 := by simp [pkt5]
 
 example : (frame (pkt5 ++ pkt1) 0).isOk = true := frame_isOk _ _
 
 /-- the hypothesis of `chunking_irrelevant` is satisfiable with empty, single-packet and
 multi-packet buffers -/
-example : ∀ c ∈ [[], pkt5, [], pkt1 ++ pkt5, pkt1], c.length % 188 = 0 := by decide
+example : ∀ c ∈ [[], pkt5, [], pkt1 ++ pkt5, pkt1], c.length % 188 = 0 := by
+  simp [pkt5, pkt1]
 
 example : pushAll exSem ([], []) [[], pkt5, [], pkt1 ++ pkt5, pkt1] 0
     = push exSem ([], []) (pkt5 ++ pkt1 ++ pkt5 ++ pkt1) 0 := by
-  have := chunking_irrelevant exSem ([], []) [[], pkt5, [], pkt1 ++ pkt5, pkt1] 0 (by decide)
+  have := chunking_irrelevant exSem ([], []) [[], pkt5, [], pkt1 ++ pkt5, pkt1] 0
+    (by simp [pkt5, pkt1])
   simpa using this
 
 end Ts.Props.C07
